@@ -366,7 +366,7 @@ func (pm *pinModel) analyse(fn *ssa.Function) *pinResult {
 
 func init() {
 	reg("C14-R1", "pin pairing: in the heap, executor, materialization, catalog, samehada, recovery, hash-index and index-wrapper packages every FetchPage/NewPage (and derived wrapper) is released by UnpinPage/DecPinOfPage on every non-panicking path, or leaves the function through a declared transfer", func(w *World, r *Report) {
-		pinRule(w, r, nil, 22, 38)
+		pinRule(w, r, nil, 15, 25)
 	})
 	reg("C14-R1/recovery", "pin pairing on the restart path (a pin leaked by recovery exhausts a small pool and restart fails): the functions of recovery/log_recovery, the catalog reload and the samehada start-up / index reconstruction functions", func(w *World, r *Report) {
 		pinRule(w, r, func(fn *ssa.Function) bool {
@@ -377,7 +377,7 @@ func init() {
 			k := funcKey(fn)
 			return k == "samehada.NewSamehadaDB" || k == "samehada.reconstructIndexDataOfATbl" || k == "samehada.ReconstructAllIndexData" || k == "samehada.ReconstructNotKeptIndexData" ||
 				k == "catalog.RecoveryCatalogFromCatalogPage" || k == "storage/access.NewTableHeap" || k == "storage/access.InitTableHeap"
-		}, 3, 12)
+		}, 3, 8)
 	})
 	reg("C14-R1/join", "pin pairing in the join executors and their temporary pages (C11-R4)", func(w *World, r *Report) {
 		pinRule(w, r, func(fn *ssa.Function) bool {
